@@ -1690,3 +1690,45 @@ func endlessLoopHeaders(fn *ssa.Function) []*ssa.BasicBlock {
 	}
 	return out
 }
+
+// globalSliceInts returns the integer constants a package-level slice variable is initialised with
+// (`var x = []T{c1, c2, …}` with constant elements, possibly boxed into an interface), in order.
+func globalSliceInts(g *ssa.Global) ([]int64, bool) {
+	init := g.Pkg.Func("init")
+	if init == nil {
+		return nil, false
+	}
+	for _, b := range init.Blocks {
+		for _, in := range b.Instrs {
+			st, ok := in.(*ssa.Store)
+			if !ok || st.Addr != ssa.Value(g) {
+				continue
+			}
+			sl, ok := st.Val.(*ssa.Slice)
+			if !ok {
+				return nil, false
+			}
+			arr, ok := sl.X.(*ssa.Alloc)
+			if !ok {
+				return nil, false
+			}
+			els, ok := arrayLitElems(arr)
+			if !ok {
+				return nil, false
+			}
+			var out []int64
+			for _, e := range els {
+				if mi, ok := e.(*ssa.MakeInterface); ok {
+					e = mi.X
+				}
+				v, ok := constInt(e)
+				if !ok {
+					return nil, false
+				}
+				out = append(out, v)
+			}
+			return out, true
+		}
+	}
+	return nil, false
+}
